@@ -49,6 +49,14 @@ def handleZone (toks : List String) : Option String :=
       let ns ← zdtNew ns
       let dt ← tz.isoDateTimeFor ns
       pure s!"{dt.date.year} {dt.date.month} {dt.date.day} {dt.time.hour} {dt.time.minute} {dt.time.second} {dt.time.millisecond} {dt.time.microsecond} {dt.time.nanosecond} {tz.offsetNanosFor ns}" : Out String).render id)
+  | "tz_conv" :: z :: [ns] => do
+    let tz ← zone? z; let ns ← int? ns
+    some ((do
+      let ns ← zdtNew ns
+      let dt ← tz.isoDateTimeFor ns
+      let d := s!"{dt.date.year} {dt.date.month} {dt.date.day}"
+      let t := s!"{dt.time.hour} {dt.time.minute} {dt.time.second} {dt.time.millisecond} {dt.time.microsecond} {dt.time.nanosecond}"
+      pure s!"{d} | {t} | {d} {t}" : Out String).render id)
   | "tz_inst" :: z :: rest => do
     let tz ← zone? z
     let a ← dt? (rest.take 9)
@@ -113,8 +121,9 @@ def handleZone (toks : List String) : Option String :=
       some ((do
         -- date_from_partial(year, month, day, reject) and IsoTime::with(partial, reject)
         let date ← IsoDate.newWithOverflow y m d .reject
+        -- a record of fields always yields a time record: missing fields are midnight
         let time ← (match time with
-          | none => pure none
+          | none => pure (some IsoTime.midnight)
           | some t => do let t ← isoTimeNew t.hour t.minute t.second t.millisecond t.microsecond t.nanosecond .reject; pure (some t) : Out (Option IsoTime))
         interpretOffset date time false off tz dis oo : Out Int).render toString)
     | _ => none
